@@ -74,6 +74,18 @@ def emit(rnd, f, shape, extras, bad):
     return ops, n
 
 
+def odd_aliases(rnd):
+    """legal aliases that the name generator itself never produces (leading zeros, indices beyond 32 bits), often the same
+    one in both operands"""
+    if rnd.random() > 0.2:
+        return []
+    pool = ['X01', 'X4294967296', 'X007', 'X0', 'X18446744073709551616', 'X00']
+    a = rnd.choice(pool)
+    b = a if rnd.random() < 0.7 else rnd.choice(pool)
+    return [{'op': 'form.op', 'f': 'a', 'k': 'setalias', 'uid': {'idx': 0}, 'alias': a, 'subst': True},
+            {'op': 'form.op', 'f': 'b', 'k': 'setalias', 'uid': {'idx': 0}, 'alias': b, 'subst': True}]
+
+
 def random_pairs(rnd, shape_len, na, nb, like):
     pairs = []
     used_a, used_b = set(), set()
@@ -102,7 +114,7 @@ def synth_case(rnd, hist_id):
     if rnd.random() < 0.5:
         ops.append({'op': 'form.seed', 'seed': hist_id})     # same identifiers in both operands
     ob, nb = emit(rnd, 'b', shape if rnd.random() < 0.85 else make_shape(rnd), rnd.choice([0, 1, 3]), bad)
-    ops += oa + ob
+    ops += oa + ob + odd_aliases(rnd)
     ops.append({'op': 'form.snap', 'f': 'a'})
     ops.append({'op': 'form.snap', 'f': 'b'})
     like = rnd.choice([0, 0.3, 0.6, 1.0])
@@ -116,7 +128,7 @@ def inplace_case(rnd, hist_id):
     bad = rnd.choice([0, 0, 0.15])
     oa, na = emit(rnd, 'a', shape, rnd.choice([1, 3, 5]), bad)
     ob, nb = emit(rnd, 'b', shape, rnd.choice([0, 2]), bad)
-    ops += oa + ob
+    ops += oa + ob + odd_aliases(rnd)
     ops.append({'op': 'form.op', 'f': 'a', 'k': 'updatestate', 'snap': True})
     ops.append({'op': 'form.snap', 'f': 'b'})
     n = na
